@@ -265,23 +265,39 @@ Definition with_name (t : tok) (n : string) : tok :=
   let g := tk_tag t in
   KTag {| tg_kind := tg_kind g ; tg_name := nm n ; tg_self := tg_self g ; tg_attrs := tg_attrs g ; tg_dup := tg_dup g |}.
 
-Definition bodies_in_body_gen (in_head in_template self : body) : list body :=
-  [ (* 0 :415 *) b_unexpected;
-    (* 1 :417 *) fun t =>
+(* arm 0, rules.rs:415 *)
+Definition ib_arm_0 (in_head in_template self : body) : body :=
+  b_unexpected.
+
+(* arm 1, rules.rs:417 *)
+Definition ib_arm_1 (in_head in_template self : body) : body :=
+  fun t =>
        reconstruct_active_formatting_elements ;;
        when (any_not_whitespace (tk_text t)) set_frameset_not_ok ;;
-       append_text (tk_text t);
-    (* 2 :425 *) b_append_comment;
-    (* 3 :427 <html> *) fun t =>
+       append_text (tk_text t).
+
+(* arm 2, rules.rs:425 *)
+Definition ib_arm_2 (in_head in_template self : body) : body :=
+  b_append_comment.
+
+(* arm 3, rules.rs:427 <html> *)
+Definition ib_arm_3 (in_head in_template self : body) : body :=
+  fun t =>
        parse_error ;;
        s <- get ;;
        (if negb (in_html_elem_named s (nm "template")) then
           top <- unwrap (nth_error (open_elems s) 0) 6 ;;
           emit (OpAddAttrsIfMissing top (tg_attrs (tk_tag t)))
         else ret tt) ;;
-       ret Done;
-    (* 4 :437 *) in_head;
-    (* 5 :442 <body> *) fun t =>
+       ret Done.
+
+(* arm 4, rules.rs:437 *)
+Definition ib_arm_4 (in_head in_template self : body) : body :=
+  in_head.
+
+(* arm 5, rules.rs:442 <body> *)
+Definition ib_arm_5 (in_head in_template self : body) : body :=
+  fun t =>
        parse_error ;;
        s <- get ;;
        b <- body_elem s ;;
@@ -293,8 +309,11 @@ Definition bodies_in_body_gen (in_head in_template self : body) : list body :=
            ret Done
          else ret Done
        | None => ret Done
-       end;
-    (* 6 :458 <frameset> *) fun t =>
+       end.
+
+(* arm 6, rules.rs:458 <frameset> *)
+Definition ib_arm_6 (in_head in_template self : body) : body :=
+  fun t =>
        parse_error ;;
        s <- get ;;
        if negb (frameset_ok s) then ret Done
@@ -308,38 +327,62 @@ Definition bodies_in_body_gen (in_head in_template self : body) : list body :=
            _e <- insert_element_for (tk_tag t) ;;
            set_mode_m InFrameset ;;
            ret Done
-         end;
-    (* 7 :477 Eof *) fun t =>
+         end.
+
+(* arm 7, rules.rs:477 Eof *)
+Definition ib_arm_7 (in_head in_template self : body) : body :=
+  fun t =>
        s <- get ;;
        match template_modes s with
        | _ :: _ => in_template t
        | [] => check_body_end ;; ret Done
-       end;
-    (* 8 :486 </body> *) fun _ =>
+       end.
+
+(* arm 8, rules.rs:486 </body> *)
+Definition ib_arm_8 (in_head in_template self : body) : body :=
+  fun _ =>
        s <- get ;;
        if in_scope_named s default_scope (nm "body") then
          check_body_end ;; set_mode_m AfterBody ;; ret Done
-       else parse_error ;; ret Done;
-    (* 9 :497 </html> *) fun t =>
+       else parse_error ;; ret Done.
+
+(* arm 9, rules.rs:497 </html> *)
+Definition ib_arm_9 (in_head in_template self : body) : body :=
+  fun t =>
        s <- get ;;
        if in_scope_named s default_scope (nm "body") then
          check_body_end ;; ret (Reprocess AfterBody t)
-       else parse_error ;; ret Done;
-    (* 10 :508 *) ib_block_start;
-    (* 11 :519 <menu> *) ib_block_start;
-    (* 12 :525 <h1>..<h6> *) fun t =>
+       else parse_error ;; ret Done.
+
+(* arm 10, rules.rs:508 *)
+Definition ib_arm_10 (in_head in_template self : body) : body :=
+  ib_block_start.
+
+(* arm 11, rules.rs:519 <menu> *)
+Definition ib_arm_11 (in_head in_template self : body) : body :=
+  ib_block_start.
+
+(* arm 12, rules.rs:525 <h1>..<h6> *)
+Definition ib_arm_12 (in_head in_template self : body) : body :=
+  fun t =>
        close_p_element_in_button_scope ;;
        b <- current_node_in (in_set heading_tag) ;;
        (if b then parse_error ;; _e <- pop ;; ret tt else ret tt) ;;
        _e <- insert_element_for (tk_tag t) ;;
-       ret Done;
-    (* 13 :535 <pre> <listing> *) fun t =>
+       ret Done.
+
+(* arm 13, rules.rs:535 <pre> <listing> *)
+Definition ib_arm_13 (in_head in_template self : body) : body :=
+  fun t =>
        close_p_element_in_button_scope ;;
        _e <- insert_element_for (tk_tag t) ;;
        modify (set_ignore_lf true) ;;
        set_frameset_not_ok ;;
-       ret Done;
-    (* 14 :543 <form> *) fun t =>
+       ret Done.
+
+(* arm 14, rules.rs:543 <form> *)
+Definition ib_arm_14 (in_head in_template self : body) : body :=
+  fun t =>
        s <- get ;;
        if (match form_elem s with Some _ => true | None => false end) &&
           negb (in_html_elem_named s (nm "template")) then
@@ -349,8 +392,11 @@ Definition bodies_in_body_gen (in_head in_template self : body) : list body :=
          elem <- insert_element_for (tk_tag t) ;;
          s <- get ;;
          (if negb (in_html_elem_named s (nm "template")) then modify (set_form_elem (Some elem)) else ret tt) ;;
-         ret Done;
-    (* 15 :558 <li> <dd> <dt> *) fun t =>
+         ret Done.
+
+(* arm 15, rules.rs:558 <li> <dd> <dt> *)
+Definition ib_arm_15 (in_head in_template self : body) : body :=
+  fun t =>
        is_list <- (if is_n (tname t) "li" then ret true
                    else if is_n (tname t) "dd" || is_n (tname t) "dt" then ret false
                    else panic 36) ;;
@@ -362,12 +408,18 @@ Definition bodies_in_body_gen (in_head in_template self : body) : list body :=
         end) ;;
        close_p_element_in_button_scope ;;
        _e <- insert_element_for (tk_tag t) ;;
-       ret Done;
-    (* 16 :598 <plaintext> *) fun t =>
+       ret Done.
+
+(* arm 16, rules.rs:598 <plaintext> *)
+Definition ib_arm_16 (in_head in_template self : body) : body :=
+  fun t =>
        close_p_element_in_button_scope ;;
        _e <- insert_element_for (tk_tag t) ;;
-       ret ToPlaintext;
-    (* 17 :604 <button> *) fun t =>
+       ret ToPlaintext.
+
+(* arm 17, rules.rs:604 <button> *)
+Definition ib_arm_17 (in_head in_template self : body) : body :=
+  fun t =>
        s <- get ;;
        (if in_scope_named s default_scope (nm "button") then
           parse_error ;;
@@ -377,10 +429,19 @@ Definition bodies_in_body_gen (in_head in_template self : body) : list body :=
        reconstruct_active_formatting_elements ;;
        _e <- insert_element_for (tk_tag t) ;;
        set_frameset_not_ok ;;
-       ret Done;
-    (* 18 :616 *) ib_end_block;
-    (* 19 :632 </form> *) ib_form_end;
-    (* 20 :668 </option> *) fun t =>
+       ret Done.
+
+(* arm 18, rules.rs:616 *)
+Definition ib_arm_18 (in_head in_template self : body) : body :=
+  ib_end_block.
+
+(* arm 19, rules.rs:632 </form> *)
+Definition ib_arm_19 (in_head in_template self : body) : body :=
+  ib_form_end.
+
+(* arm 20, rules.rs:668 </option> *)
+Definition ib_arm_20 (in_head in_template self : body) : body :=
+  fun t =>
        s <- get ;;
        let option_in_stack := find (fun h => named s h "option") (open_elems s) in
        process_end_tag_in_body (tname t) ;;
@@ -391,21 +452,30 @@ Definition bodies_in_body_gen (in_head in_template self : body) : list body :=
           else ret tt
         | None => ret tt
         end) ;;
-       ret Done;
-    (* 21 :693 </p> *) fun _ =>
+       ret Done.
+
+(* arm 21, rules.rs:693 </p> *)
+Definition ib_arm_21 (in_head in_template self : body) : body :=
+  fun _ =>
        s <- get ;;
        (if negb (in_scope_named s button_scope (nm "p")) then
           parse_error ;; _e <- insert_phantom (nm "p") ;; ret tt
         else ret tt) ;;
        close_p_element ;;
-       ret Done;
-    (* 22 :702 </li> </dd> </dt> *) fun t =>
+       ret Done.
+
+(* arm 22, rules.rs:702 </li> </dd> </dt> *)
+Definition ib_arm_22 (in_head in_template self : body) : body :=
+  fun t =>
        s <- get ;;
        let in_sc := if is_n (tname t) "li" then in_scope_named s list_item_scope (tname t)
                     else in_scope_named s default_scope (tname t) in
        if in_sc then generate_implied_end_except (tname t) ;; expect_to_close (tname t) ;; ret Done
-       else parse_error ;; ret Done;
-    (* 23 :717 </h1>..</h6> *) fun t =>
+       else parse_error ;; ret Done.
+
+(* arm 23, rules.rs:717 </h1>..</h6> *)
+Definition ib_arm_23 (in_head in_template self : body) : body :=
+  fun t =>
        s <- get ;;
        if in_scope s default_scope (fun n => in_set heading_tag (ename_of s n)) then
          generate_implied_end_tags (in_set cursory_implied_end) ;;
@@ -413,17 +483,26 @@ Definition bodies_in_body_gen (in_head in_template self : body) : list body :=
          when (negb b) parse_error ;;
          _n <- pop_until (in_set heading_tag) ;;
          ret Done
-       else parse_error ;; ret Done;
-    (* 24 :730 <a> *) fun t =>
+       else parse_error ;; ret Done.
+
+(* arm 24, rules.rs:730 <a> *)
+Definition ib_arm_24 (in_head in_template self : body) : body :=
+  fun t =>
        handle_misnested_a_tags ;;
        reconstruct_active_formatting_elements ;;
        _e <- create_formatting_element_for (tk_tag t) ;;
-       ret Done;
-    (* 25 :737 <b> <big> ... *) fun t =>
+       ret Done.
+
+(* arm 25, rules.rs:737 <b> <big> ... *)
+Definition ib_arm_25 (in_head in_template self : body) : body :=
+  fun t =>
        reconstruct_active_formatting_elements ;;
        _e <- create_formatting_element_for (tk_tag t) ;;
-       ret Done;
-    (* 26 :746 <nobr> *) fun t =>
+       ret Done.
+
+(* arm 26, rules.rs:746 <nobr> *)
+Definition ib_arm_26 (in_head in_template self : body) : body :=
+  fun t =>
        reconstruct_active_formatting_elements ;;
        s <- get ;;
        (if in_scope_named s default_scope (nm "nobr") then
@@ -432,36 +511,57 @@ Definition bodies_in_body_gen (in_head in_template self : body) : list body :=
           reconstruct_active_formatting_elements
         else ret tt) ;;
        _e <- create_formatting_element_for (tk_tag t) ;;
-       ret Done;
-    (* 27 :757 </a> </b> ... *) fun t => adoption_agency (tname t) ;; ret Done;
-    (* 28 :765 <applet> <marquee> <object> *) fun t =>
+       ret Done.
+
+(* arm 27, rules.rs:757 </a> </b> ... *)
+Definition ib_arm_27 (in_head in_template self : body) : body :=
+  fun t => adoption_agency (tname t) ;; ret Done.
+
+(* arm 28, rules.rs:765 <applet> <marquee> <object> *)
+Definition ib_arm_28 (in_head in_template self : body) : body :=
+  fun t =>
        reconstruct_active_formatting_elements ;;
        _e <- insert_element_for (tk_tag t) ;;
        push_marker ;;
        set_frameset_not_ok ;;
-       ret Done;
-    (* 29 :775 </applet> </marquee> </object> *) fun t =>
+       ret Done.
+
+(* arm 29, rules.rs:775 </applet> </marquee> </object> *)
+Definition ib_arm_29 (in_head in_template self : body) : body :=
+  fun t =>
        s <- get ;;
        if negb (in_scope_named s default_scope (tname t)) then unexpected
        else
          generate_implied_end_tags (in_set cursory_implied_end) ;;
          expect_to_close (tname t) ;;
          clear_active_formatting_to_marker ;;
-         ret Done;
-    (* 30 :786 <table> *) fun t =>
+         ret Done.
+
+(* arm 30, rules.rs:786 <table> *)
+Definition ib_arm_30 (in_head in_template self : body) : body :=
+  fun t =>
        s <- get ;;
        (if negb (N.eqb (quirks_mode s) 0) then close_p_element_in_button_scope else ret tt) ;;
        _e <- insert_element_for (tk_tag t) ;;
        set_frameset_not_ok ;;
        set_mode_m InTable ;;
-       ret Done;
-    (* 31 :796 </br> *) fun t =>
+       ret Done.
+
+(* arm 31, rules.rs:796 </br> *)
+Definition ib_arm_31 (in_head in_template self : body) : body :=
+  fun t =>
        parse_error ;;
        let g := tk_tag t in
        self (KTag {| tg_kind := StartTag ; tg_name := tg_name g ; tg_self := tg_self g ; tg_attrs := [] ;
-                     tg_dup := tg_dup g |});
-    (* 32 :808 *) ib_void;
-    (* 33 :815 <input> *) fun t =>
+                     tg_dup := tg_dup g |}).
+
+(* arm 32, rules.rs:808 *)
+Definition ib_arm_32 (in_head in_template self : body) : body :=
+  ib_void.
+
+(* arm 33, rules.rs:815 <input> *)
+Definition ib_arm_33 (in_head in_template self : body) : body :=
+  fun t =>
        s <- get ;;
        (if is_fragment s then
           ctx <- unwrap (context_elem s) 37 ;;
@@ -474,10 +574,16 @@ Definition bodies_in_body_gen (in_head in_template self : body) : list body :=
        reconstruct_active_formatting_elements ;;
        _e <- insert_and_pop_element_for (tk_tag t) ;;
        when (negb hidden) set_frameset_not_ok ;;
-       ret DoneAckSelfClosing;
-    (* 34 :842 <param> <source> <track> *) fun t =>
-       _e <- insert_and_pop_element_for (tk_tag t) ;; ret DoneAckSelfClosing;
-    (* 35 :847 <hr> *) fun t =>
+       ret DoneAckSelfClosing.
+
+(* arm 34, rules.rs:842 <param> <source> <track> *)
+Definition ib_arm_34 (in_head in_template self : body) : body :=
+  fun t =>
+       _e <- insert_and_pop_element_for (tk_tag t) ;; ret DoneAckSelfClosing.
+
+(* arm 35, rules.rs:847 <hr> *)
+Definition ib_arm_35 (in_head in_template self : body) : body :=
+  fun t =>
        close_p_element_in_button_scope ;;
        s <- get ;;
        (if in_scope_named s default_scope (nm "select") then
@@ -488,20 +594,38 @@ Definition bodies_in_body_gen (in_head in_template self : body) : list body :=
         else ret tt) ;;
        _e <- insert_and_pop_element_for (tk_tag t) ;;
        set_frameset_not_ok ;;
-       ret DoneAckSelfClosing;
-    (* 36 :863 <image> *) fun t => parse_error ;; self (with_name t "img");
-    (* 37 :874 <textarea> *) fun t =>
+       ret DoneAckSelfClosing.
+
+(* arm 36, rules.rs:863 <image> *)
+Definition ib_arm_36 (in_head in_template self : body) : body :=
+  fun t => parse_error ;; self (with_name t "img").
+
+(* arm 37, rules.rs:874 <textarea> *)
+Definition ib_arm_37 (in_head in_template self : body) : body :=
+  fun t =>
        modify (set_ignore_lf true) ;;
        set_frameset_not_ok ;;
-       parse_raw_data (tk_tag t) Rcdata;
-    (* 38 :880 <xmp> *) fun t =>
+       parse_raw_data (tk_tag t) Rcdata.
+
+(* arm 38, rules.rs:880 <xmp> *)
+Definition ib_arm_38 (in_head in_template self : body) : body :=
+  fun t =>
        close_p_element_in_button_scope ;;
        reconstruct_active_formatting_elements ;;
        set_frameset_not_ok ;;
-       parse_raw_data (tk_tag t) Rawtext;
-    (* 39 :887 <iframe> *) fun t => set_frameset_not_ok ;; parse_raw_data (tk_tag t) Rawtext;
-    (* 40 :892 <noembed> *) fun t => parse_raw_data (tk_tag t) Rawtext;
-    (* 41 :895 <select> *) fun t =>
+       parse_raw_data (tk_tag t) Rawtext.
+
+(* arm 39, rules.rs:887 <iframe> *)
+Definition ib_arm_39 (in_head in_template self : body) : body :=
+  fun t => set_frameset_not_ok ;; parse_raw_data (tk_tag t) Rawtext.
+
+(* arm 40, rules.rs:892 <noembed> *)
+Definition ib_arm_40 (in_head in_template self : body) : body :=
+  fun t => parse_raw_data (tk_tag t) Rawtext.
+
+(* arm 41, rules.rs:895 <select> *)
+Definition ib_arm_41 (in_head in_template self : body) : body :=
+  fun t =>
        s <- get ;;
        ctx_is_select <- (if is_fragment s then ctx <- unwrap (context_elem s) 38 ;; ret (named s ctx "select")
                          else ret false) ;;
@@ -512,8 +636,11 @@ Definition bodies_in_body_gen (in_head in_template self : body) : list body :=
          reconstruct_active_formatting_elements ;;
          _e <- insert_element_for (tk_tag t) ;;
          set_frameset_not_ok ;;
-         ret Done;
-    (* 42 :915 <option> *) fun t =>
+         ret Done.
+
+(* arm 42, rules.rs:915 <option> *)
+Definition ib_arm_42 (in_head in_template self : body) : body :=
+  fun t =>
        s <- get ;;
        (if in_scope_named s default_scope (nm "select") then
           generate_implied_end_except (nm "optgroup") ;;
@@ -524,8 +651,11 @@ Definition bodies_in_body_gen (in_head in_template self : body) : list body :=
           if b then _e <- pop ;; ret tt else ret tt) ;;
        reconstruct_active_formatting_elements ;;
        _e <- insert_element_for (tk_tag t) ;;
-       ret Done;
-    (* 43 :930 <optgroup> *) fun t =>
+       ret Done.
+
+(* arm 43, rules.rs:930 <optgroup> *)
+Definition ib_arm_43 (in_head in_template self : body) : body :=
+  fun t =>
        s <- get ;;
        (if in_scope_named s default_scope (nm "select") then
           generate_implied_end_tags (in_set cursory_implied_end) ;;
@@ -537,34 +667,108 @@ Definition bodies_in_body_gen (in_head in_template self : body) : list body :=
           if b then _e <- pop ;; ret tt else ret tt) ;;
        reconstruct_active_formatting_elements ;;
        _e <- insert_element_for (tk_tag t) ;;
-       ret Done;
-    (* 44 :947 <rb> <rtc> *) fun t =>
+       ret Done.
+
+(* arm 44, rules.rs:947 <rb> <rtc> *)
+Definition ib_arm_44 (in_head in_template self : body) : body :=
+  fun t =>
        s <- get ;;
        (if in_scope_named s default_scope (nm "ruby") then
           generate_implied_end_tags (in_set cursory_implied_end) else ret tt) ;;
        b <- current_node_named (nm "ruby") ;;
        when (negb b) parse_error ;;
        _e <- insert_element_for (tk_tag t) ;;
-       ret Done;
-    (* 45 :958 <rp> <rt> *) fun t =>
+       ret Done.
+
+(* arm 45, rules.rs:958 <rp> <rt> *)
+Definition ib_arm_45 (in_head in_template self : body) : body :=
+  fun t =>
        s <- get ;;
        (if in_scope_named s default_scope (nm "ruby") then generate_implied_end_except (nm "rtc") else ret tt) ;;
        b1 <- current_node_named (nm "rtc") ;;
        b2 <- current_node_named (nm "ruby") ;;
        when (negb b1 && negb b2) parse_error ;;
        _e <- insert_element_for (tk_tag t) ;;
-       ret Done;
-    (* 46 :971 <math> *) fun t => reconstruct_active_formatting_elements ;; enter_foreign (tk_tag t) ns_mathml;
-    (* 47 :976 <svg> *) fun t => reconstruct_active_formatting_elements ;; enter_foreign (tk_tag t) ns_svg;
-    (* 48 :981 *) b_unexpected;
-    (* 49 :989 any other start tag *) fun t =>
+       ret Done.
+
+(* arm 46, rules.rs:971 <math> *)
+Definition ib_arm_46 (in_head in_template self : body) : body :=
+  fun t => reconstruct_active_formatting_elements ;; enter_foreign (tk_tag t) ns_mathml.
+
+(* arm 47, rules.rs:976 <svg> *)
+Definition ib_arm_47 (in_head in_template self : body) : body :=
+  fun t => reconstruct_active_formatting_elements ;; enter_foreign (tk_tag t) ns_svg.
+
+(* arm 48, rules.rs:981 *)
+Definition ib_arm_48 (in_head in_template self : body) : body :=
+  b_unexpected.
+
+(* arm 49, rules.rs:989 any other start tag *)
+Definition ib_arm_49 (in_head in_template self : body) : body :=
+  fun t =>
        s <- get ;;
        if o_scripting (opts s) && is_n (tname t) "noscript" then parse_raw_data (tk_tag t) Rawtext
        else
          reconstruct_active_formatting_elements ;;
          _e <- insert_element_for (tk_tag t) ;;
-         ret Done;
-    (* 50 :999 any other end tag *) ib_any_end ].
+         ret Done.
+
+(* arm 50, rules.rs:999 any other end tag *)
+Definition ib_arm_50 (in_head in_template self : body) : body :=
+  ib_any_end.
+
+Definition bodies_in_body_gen (in_head in_template self : body) : list body :=
+  [ ib_arm_0 in_head in_template self;
+    ib_arm_1 in_head in_template self;
+    ib_arm_2 in_head in_template self;
+    ib_arm_3 in_head in_template self;
+    ib_arm_4 in_head in_template self;
+    ib_arm_5 in_head in_template self;
+    ib_arm_6 in_head in_template self;
+    ib_arm_7 in_head in_template self;
+    ib_arm_8 in_head in_template self;
+    ib_arm_9 in_head in_template self;
+    ib_arm_10 in_head in_template self;
+    ib_arm_11 in_head in_template self;
+    ib_arm_12 in_head in_template self;
+    ib_arm_13 in_head in_template self;
+    ib_arm_14 in_head in_template self;
+    ib_arm_15 in_head in_template self;
+    ib_arm_16 in_head in_template self;
+    ib_arm_17 in_head in_template self;
+    ib_arm_18 in_head in_template self;
+    ib_arm_19 in_head in_template self;
+    ib_arm_20 in_head in_template self;
+    ib_arm_21 in_head in_template self;
+    ib_arm_22 in_head in_template self;
+    ib_arm_23 in_head in_template self;
+    ib_arm_24 in_head in_template self;
+    ib_arm_25 in_head in_template self;
+    ib_arm_26 in_head in_template self;
+    ib_arm_27 in_head in_template self;
+    ib_arm_28 in_head in_template self;
+    ib_arm_29 in_head in_template self;
+    ib_arm_30 in_head in_template self;
+    ib_arm_31 in_head in_template self;
+    ib_arm_32 in_head in_template self;
+    ib_arm_33 in_head in_template self;
+    ib_arm_34 in_head in_template self;
+    ib_arm_35 in_head in_template self;
+    ib_arm_36 in_head in_template self;
+    ib_arm_37 in_head in_template self;
+    ib_arm_38 in_head in_template self;
+    ib_arm_39 in_head in_template self;
+    ib_arm_40 in_head in_template self;
+    ib_arm_41 in_head in_template self;
+    ib_arm_42 in_head in_template self;
+    ib_arm_43 in_head in_template self;
+    ib_arm_44 in_head in_template self;
+    ib_arm_45 in_head in_template self;
+    ib_arm_46 in_head in_template self;
+    ib_arm_47 in_head in_template self;
+    ib_arm_48 in_head in_template self;
+    ib_arm_49 in_head in_template self;
+    ib_arm_50 in_head in_template self ].
 Definition step_in_body_gen (in_head in_template self : body) : body :=
   arm_dispatch (mode_id InBody) heads_in_body (bodies_in_body_gen in_head in_template self).
 
